@@ -141,6 +141,63 @@ class _FuncAnalysis:
         self.bind = {}      # local name -> list of value exprs / ('elem', expr) / ('unpack', expr)
         self.collect_bindings()
         self._memo = {}
+        # flow-sensitive view: reaching definitions of local names at every statement
+        from .cfg import CFG
+        try:
+            self.cfg = CFG(func.node)
+            self.rd = self.cfg.reaching()
+        except Exception:
+            self.cfg, self.rd = None, {}
+        self.node_map = {}
+        if self.cfg is not None:
+            for n in self.cfg.nodes:
+                if n.ast is None:
+                    continue
+                if n.kind == 'loop':
+                    parts = [n.ast.iter, n.ast.target] if isinstance(n.ast, ast.For) else [n.ast.test]
+                elif n.kind == 'test':
+                    parts = [n.ast.test] if hasattr(n.ast, 'test') else [n.ast]
+                elif isinstance(n.ast, ast.With):
+                    parts = [i.context_expr for i in n.ast.items]
+                elif isinstance(n.ast, ast.Try):
+                    parts = []
+                else:
+                    parts = [n.ast]
+                for p_ in parts:
+                    for x in ast.walk(p_):
+                        self.node_map.setdefault(id(x), n)
+        self.at = None      # CFG node of the statement being analysed
+
+    def def_source(self, name, nid):
+        """binding source of `name` established at CFG node nid -> list of (kind, expr)"""
+        n = self.cfg.nodes[nid]
+        a = n.ast
+        out = []
+        def from_target(t, src):
+            if isinstance(t, ast.Name):
+                if t.id == name:
+                    out.append(src)
+            elif isinstance(t, (ast.Tuple, ast.List)):
+                for e in t.elts:
+                    from_target(e, ('elem', src[1]))
+            elif isinstance(t, ast.Starred):
+                from_target(t.value, ('elem', src[1]))
+        if n.kind == 'loop' and isinstance(a, ast.For):
+            from_target(a.target, ('elem', a.iter))
+        elif isinstance(a, ast.Assign):
+            for t in a.targets:
+                if isinstance(t, (ast.Tuple, ast.List)) and isinstance(a.value, (ast.Tuple, ast.List)) and len(t.elts) == len(a.value.elts):
+                    for te, ve in zip(t.elts, a.value.elts):
+                        from_target(te, ('val', ve))
+                else:
+                    from_target(t, ('val', a.value))
+        elif isinstance(a, ast.AnnAssign) and a.value is not None:
+            from_target(a.target, ('val', a.value))
+        elif isinstance(a, ast.With):
+            for it in a.items:
+                if it.optional_vars is not None:
+                    from_target(it.optional_vars, ('val', it.context_expr))
+        return out
 
     def collect_bindings(self):
         def bind_target(t, src):
@@ -179,6 +236,31 @@ class _FuncAnalysis:
             return path('self')
         if name in self.params and name not in self.bind:
             return path('param:' + name)
+        if self.at is not None and self.cfg is not None and name in self.rd.get(self.at.id, {}) and name not in ('self',):
+            defs = self.rd[self.at.id][name]
+            key = ('rd', name, self.at.id)
+            if key in self._memo:
+                return self._memo[key]
+            self._memo[key] = FRESH_DEEP
+            p = None
+            saved = self.at
+            for d in sorted(defs):
+                if d == -1:
+                    q = path('param:' + name)
+                else:
+                    srcs = self.def_source(name, d)
+                    if not srcs:
+                        continue                     # augmented assignment: keeps what it had
+                    q = None
+                    self.at = self.cfg.nodes[d]
+                    for kind, e in srcs:
+                        q = join(q, self.prov(e, depth + 1) if kind == 'val' else self.elem_of(self.prov_iter(e, depth + 1)))
+                    self.at = saved
+                p = join(p, q)
+            self.at = saved
+            p = p or FRESH_DEEP
+            self._memo[key] = p
+            return p
         if name in self.bind:
             key = ('n', name)
             if key in self._memo:
@@ -324,6 +406,7 @@ class _FuncAnalysis:
         rets = None
         f = self.func
         for n in ast.walk(f.node):
+            self.at = self.node_map.get(id(n))
             if isinstance(n, (ast.Assign, ast.AugAssign, ast.AnnAssign)):
                 targets = n.targets if isinstance(n, ast.Assign) else [n.target]
                 acc = isinstance(n, ast.AugAssign)
